@@ -690,7 +690,7 @@ def correspondence(ctx):
 if __name__ == "__main__":
     common.run_check(
         "C12", module="Bermuda.Properties.C12", driver_targets=[DRV],
-        correspondence=correspondence, level="translation_validation",
+        correspondence=correspondence, level="proof",
         rule="quick: every month end 1970-2100 and ~300 random dates x every integer k in [-600,600] whose target month "
              "stays in 1970-01..2100-12 (one digest per start date from the compiled model, same digest and the calendar "
              "statement recomputed from add_months; mismatches expanded to (date,k)); 200k random pairs (p,e) for the "
